@@ -146,6 +146,17 @@ def run_trace(case, seed):
                 t2.digest()
                 events.append({"act": {"op": "Perm"}, "res": {"entries": lst, "listing": d.listing_of(t2),
                                                               "oid_canon": bool(d.canon_ok(t2)), "same_as_first": t2.oid == obj.oid}})
+            elif op == "BuildOther":
+                # the same directory staged for the legacy algorithm, with the same State
+                from dvc_data.hashfile.build import build as _build
+                from dvc_data.hashfile.db.local import LocalHashFileDB as _L
+                from dvc_data.hashfile.state import State as _S
+
+                if d.state is None:
+                    d.state = _S(root_dir=d.root, tmp_dir=os.path.join(d.root, "state"))
+                legacy = _L(d.fs, os.path.join(d.root, "cache-legacy"), state=d.state, hash_name="md5-dos2unix")
+                _build(legacy, d.ws, d.fs, "md5-dos2unix", checksum_jobs=d.jobs)
+                events.append({"act": a, "res": {}})
             elif op == "Sub":
                 obj = d.last_obj
                 key = tuple(PATHS[SUBDIRS[a["d"]][0]].split("/")[: len(a["d"].split("/"))])
@@ -200,6 +211,8 @@ def directed_cases():
     for i, p in enumerate(PATHS):
         newc = "c1" if init[p] != "c1" else "c2"
         ops = [real, real, {"op": "Edit", "p": p, "c": newc}, real, {"op": "Sub", "d": "s"}, {"op": "Build", "cfg": {"state": "noop"}}]
+        if i % 2:
+            ops = [{"op": "BuildOther"}] + ops[:3] + [{"op": "BuildOther"}] + ops[3:]
         cases.append({"id": 10_000 + i, "init": init, "ops": ops, "jobs": [None, 1, 4][i % 3]})
     return cases
 
